@@ -303,6 +303,7 @@ C05Struct(S, o, st) ==
   \cup (IF Len(st.asserts) > 0 THEN
           Chk(AssertSet(st) = ExpectedAssertSet(S, n), "layout assertions of " \o n \o " are " \o ToJson(AssertSet(st)) \o " but the WGSL layout rules give " \o ToJson(ExpectedAssertSet(S, n)))
           \cup Chk(Len(st.asserts) = Cardinality(AssertSet(st)), "duplicate layout assertion on " \o n)
+          \cup Chk(\A a \in Range(st.asserts) : ~Has(a, "conditional"), "a layout assertion of " \o n \o " is compiled only under some configuration (#[cfg])")
           \cup Chk({ x \in NagaAssertSet(o, n) : x.field \in { y.field : y \in ExpectedAssertSet(S, n) } } = ExpectedAssertSet(S, n),
                    "ORACLE naga layout of " \o n \o " differs from Layout.tla: " \o ToJson(NagaAssertSet(o, n)) \o " vs " \o ToJson(ExpectedAssertSet(S, n)))
         ELSE {})
@@ -364,6 +365,10 @@ C14(c, o) ==
         \cup UNION { Chk(Count(consts, LAMBDA k : k.value = E[i].name) = 1, "no unique constant exports the entry point name " \o E[i].name) : i \in DOMAIN E }
         \cup Chk([ i \in DOMAIN wgs |-> wgs[i].value ] = [ i \in DOMAIN orc |-> PadWg(orc[i].wg) ],
                  "workgroup size constants " \o ToJson([ i \in DOMAIN wgs |-> wgs[i].value ]) \o " expected " \o ToJson([ i \in DOMAIN orc |-> PadWg(orc[i].wg) ]))
+        \cup UNION { Chk(x.buffers_len = 1 /\ x.buffers_same /\ x.constants_same /\ x.module_same /\ Has(x, "entry_point") /\ x.entry_point = "custom_entry",
+                         "vertex_state does not forward the module, name, buffers and constants of the entry description it is given") : x \in Range(EntEv(o, "rt.vertex_state_custom")) }
+        \cup UNION { Chk(x.targets_len = 2 /\ x.targets_same /\ x.constants_same /\ x.module_same /\ Has(x, "entry_point") /\ x.entry_point = "custom_entry",
+                         "fragment_state does not forward the module, name, targets and constants of the entry description it is given") : x \in Range(EntEv(o, "rt.fragment_state_custom")) }
         \cup Chk(Len(ctors) = Len(comp), "number of compute pipeline constructors")
         \cup (IF Len(ctors) = Len(comp) THEN UNION { CtorFails(comp[i].name, ctors[i]) : i \in DOMAIN comp } ELSE {})
         \cup UNION { LET e == EN!EntriesOf(S, "fragment")[i]
@@ -677,6 +682,7 @@ C18(c, o) ==
   IN [ dom |-> TRUE,
        fails |-> SameOrNew(m, k, RetSig(o), "two calls with equal source and options returned different results" \o (IF Has(c, "fmt_plan") THEN " (formatter plan of this call: " \o c.fmt_plan \o ")" ELSE ""))
                  \cup (IF Has(o, "repeat_same") THEN Chk(o.repeat_same, "repeated calls in one process returned different text") ELSE {})
+                 \cup Chk(~Has(o, "env_changed"), "the call changed the environment of the calling process: " \o (IF Has(o, "env_changed") THEN ToJson(o.env_changed) ELSE ""))
                  \cup Chk(~Has(o, "zombie"), "the call left a formatter process behind that it did not wait for (state outside the call changed)"),
        m |-> MPut(m, k, RetSig(o)) ]
 
